@@ -239,6 +239,10 @@ func (a *c06Local) Sign(_ context.Context, data []byte) (e2types.Signature, erro
 // is down) for as long as it is set.
 var c06Refuse bool
 
+// c06Decline names one account for which a remote signer returns no signature in a batch request (as dirk does when
+// its slashing protection denies one of several accounts): the batch succeeds, that account's entry is empty.
+var c06Decline string
+
 // c06RootSigner is the remote signer's side of an account: it is handed the object root and the domain.
 type c06RootSigner interface {
 	signRoot(root, domain []byte) (e2types.Signature, error)
@@ -349,6 +353,9 @@ func (*c06Ordinary) SignBeaconAttestations(_ context.Context, slot uint64, accou
 		if !ok {
 			return nil, errors.New("non-account provided in list")
 		}
+		if c06Decline != "" && o.name == c06Decline {
+			continue // the remote signer declines this account (its slashing protection): no signature for it, no error
+		}
 		var err error
 		if sigs[i], err = c06SignAttestation(o, slot, committeeIndices[i], blockRoot, sourceEpoch, sourceRoot, targetEpoch, targetRoot, domain); err != nil {
 			return nil, err
@@ -365,6 +372,9 @@ func (*c06Ordinary) SignGenericMulti(_ context.Context, accounts []e2wtypes.Acco
 		o, ok := accounts[i].(*c06Ordinary)
 		if !ok {
 			return nil, errors.New("account not of required type")
+		}
+		if c06Decline != "" && o.name == c06Decline {
+			continue // the remote signer declines this account (its slashing protection): no signature for it, no error
 		}
 		var err error
 		if sigs[i], err = o.signRoot(data[i], domain); err != nil {
@@ -432,6 +442,9 @@ func (*c06Distributed) SignBeaconAttestations(_ context.Context, slot uint64, ac
 		if !ok {
 			return nil, errors.New("non-distributed account provided in list")
 		}
+		if c06Decline != "" && d.name == c06Decline {
+			continue // the remote signer declines this account: no signature for it, no error
+		}
 		var err error
 		if sigs[i], err = c06SignAttestation(d, slot, committeeIndices[i], blockRoot, sourceEpoch, sourceRoot, targetEpoch, targetRoot, domain); err != nil {
 			return nil, err
@@ -448,6 +461,9 @@ func (*c06Distributed) SignGenericMulti(_ context.Context, accounts []e2wtypes.A
 		d, ok := accounts[i].(*c06Distributed)
 		if !ok {
 			return nil, errors.New("account not of required type")
+		}
+		if c06Decline != "" && d.name == c06Decline {
+			continue // the remote signer declines this account (its slashing protection): no signature for it, no error
 		}
 		var err error
 		if sigs[i], err = d.signRoot(data[i], domain); err != nil {
@@ -639,6 +655,7 @@ type c06Req struct {
 	done    bool
 	history string
 	refused bool // every account refused to sign during the judged request
+	decline int  // 1 + index of the one account the remote signer declines in the judged batch request (0: none)
 	batch   bool
 	specGap bool // the beacon node's spec does not list the domain type of this duty (builder domain only)
 }
@@ -880,6 +897,13 @@ func c06Judge(rq *c06Req) (clause, msg string) {
 	dom := rq.domain()
 	for i, a := range rq.accts {
 		what := fmt.Sprintf("signature %d (account %s)", i, a.label)
+		if rq.decline > 0 && a.acct.Name() == rq.accts[rq.decline-1].acct.Name() {
+			// nothing was signed for this account: its entry is empty
+			if rq.sigs[i] != (phase0.BLSSignature{}) {
+				return "signature-for-declined-account", what + " is not empty although the remote signer declined that account"
+			}
+			continue
+		}
 		var sig bls.Sign
 		decErr := sig.Deserialize(rq.sigs[i][:])
 		if decErr == nil && c06Verify(&sig, a.pub, c06RefSigningRoot(rq.roots[i], dom)) {
@@ -1077,8 +1101,21 @@ func c06Units(tier string) []hx.Unit {
 					// the accounts may refuse the judged request (slashing protection, locked account, signer down)
 					rq.refused, rq.batch = mc.Choose(2) == 1, ep.batch
 					c06Refuse = rq.refused
+					// ... or, in a batch of remote accounts, the signer may decline exactly one of them (any but the last)
+					rq.decline = 0
+					c06Decline = ""
+					if ep.batch && !rq.refused && len(rq.accts) >= 2 {
+						if k := mc.Choose(len(rq.accts)) - 1; k >= 0 && rq.accts[k].kind != 'L' {
+							rq.decline = k + 1
+							c06Decline = rq.accts[k].acct.Name()
+						}
+					}
 					ep.run(context.Background(), svc, slot, rq.accts, rq)
 					c06Refuse = false
+					c06Decline = ""
+					if rq.decline > 0 {
+						rq.desc += fmt.Sprintf(" (the remote signer declines account %d, %s)", rq.decline-1, rq.accts[rq.decline-1].label)
+					}
 					if rq.refused {
 						rq.desc += " (every account refuses to sign)"
 					}
